@@ -534,8 +534,15 @@ pub fn record(args: &[String]) -> i32 {
                     let k = g.r.gen_range(1..5);
                     let mut items = vec![];
                     if g.r.gen_bool(0.5) { items.push(json!({"t": "c", "c": 97})); items.push(json!({"t": "c", "c": 91})); }
-                    for _ in 0..k { items.push(json!({"t": "c", "c": 93})); }
-                    items.push(json!({"t": "c", "c": 62}));
+                    // (written as characters the run is escaped by the renderer where it has to be; the raw fragment
+                    // "]]>" of XmlDoc!RawTable is the ill-formed one - with zero to three brackets in front of it)
+                    for _ in 0..(k - 1) { items.push(json!({"t": "c", "c": 93})); }
+                    if g.r.gen_bool(0.7) {
+                        items.push(json!({"t": "x", "s": [93, 93, 62], "why": "CDEndInText"}));
+                    } else {
+                        items.push(json!({"t": "c", "c": 93}));
+                        items.push(json!({"t": "c", "c": 62}));
+                    }
                     if g.r.gen_bool(0.5) { items.push(json!({"t": "c", "c": 100})); }
                     toks.push(json!({"k": "stag", "n": cp(&root), "attrs": [], "lex": "ok"}));
                     toks.push(json!({"k": "text", "items": items}));
